@@ -21,6 +21,8 @@ import (
 const modulePath = "github.com/nyaruka/goflow"
 
 type Verifier struct {
+	typeinvs   map[string]*TypeInvDef // pkgpath.Type
+	tiWriters  map[string]map[*ssa.Function]bool
 	immutables []ImmutableDef
 	prog      *ssa.Program
 	pkgs      []*packages.Package
@@ -141,6 +143,12 @@ func Load(repoDir string, patterns []string, overlay map[string][]byte, extSpecD
 			v.ghosts[g.Name] = g
 		}
 		v.immutables = append(v.immutables, sf.Immutables...)
+		for _, ti := range sf.TypeInvs {
+			if v.typeinvs == nil {
+				v.typeinvs = map[string]*TypeInvDef{}
+			}
+			v.typeinvs[ti.Pkg+"."+ti.Type] = ti
+		}
 		for _, l := range sf.Lemmas {
 			v.lemmas[l.Pkg+"::"+l.Name] = l
 		}
